@@ -413,12 +413,15 @@ func observe(a *saml.Assertion, err error) Obs {
 }
 
 type Run struct {
-	Cfg   Cfg
-	IDs   []string
-	Now   int64 // ns
-	Cur   string
-	Entry int // 0 ParseXMLResponse (+ ParseResponse), 1 ParseXMLArtifactResponse
-	Rid   string
+	Cfg Cfg
+	IDs []string
+	// IDsArg, when set, is the slice actually handed to the library (a caller that keeps ONE list across
+	// calls); IDs is what that caller believes it holds. Default: a private copy of IDs per call.
+	IDsArg []string
+	Now    int64 // ns
+	Cur    string
+	Entry  int // 0 ParseXMLResponse (+ ParseResponse), 1 ParseXMLArtifactResponse
+	Rid    string
 	// document: Bytes are what is presented; Doc (root) its abstract form; DocKind 0 root, 1 bad, 2 no root
 	Doc     *Node
 	DocKind int
@@ -426,6 +429,7 @@ type Run struct {
 	// SPObj, when set, is the ServiceProvider value to call (instead of a fresh one built from Cfg): for
 	// sequences of calls on one long-lived object whose configuration is edited in place between calls
 	SPObj *saml.ServiceProvider
+	again string // set by Exec: how the second presentation of the same bytes differed ("" = it did not)
 }
 
 func withGlobals(c Cfg, now int64, f func()) {
@@ -449,12 +453,20 @@ func (r *Run) bytes() []byte {
 // Exec runs the entry point; second result reports whether ParseResponse (POST form) agreed with ParseXMLResponse.
 func (r *Run) Exec() (o Obs, formAgrees bool) {
 	formAgrees = true
+	again := ""
+	defer func() { r.again = again }()
 	spv := r.Cfg.SP()
 	if r.SPObj != nil {
 		spv = r.SPObj
 	}
 	cur := mustURL(r.Cur)
 	b := r.bytes()
+	idsArg := func() []string {
+		if r.IDsArg != nil {
+			return r.IDsArg
+		}
+		return append([]string{}, r.IDs...)
+	}
 	withGlobals(r.Cfg, r.Now, func() {
 		func() {
 			defer func() {
@@ -463,9 +475,31 @@ func (r *Run) Exec() (o Obs, formAgrees bool) {
 				}
 			}()
 			if r.Entry == 0 {
-				o = observe(spv.ParseXMLResponse(b, r.IDs, cur))
+				o = observe(spv.ParseXMLResponse(b, idsArg(), cur))
 			} else {
-				o = observe(spv.ParseXMLArtifactResponse(b, r.IDs, r.Rid, cur))
+				o = observe(spv.ParseXMLArtifactResponse(b, idsArg(), r.Rid, cur))
+			}
+		}()
+		// second presentation of the same bytes (to the same long-lived value, or to another fresh one in
+		// the same process): nothing may have been remembered from the first
+		func() {
+			var o3 Obs
+			defer func() {
+				if p := recover(); p != nil {
+					o3 = Obs{Kind: "panic", Err: fmt.Sprint(p)}
+				}
+				if o3.Kind != o.Kind || o3.ID != o.ID || o3.Code != o.Code || o3.NameID != o.NameID {
+					again = fmt.Sprintf("first %s/%d/%s, second %s/%d/%s %s", o.Kind, o.Code, o.ID, o3.Kind, o3.Code, o3.ID, o3.Err)
+				}
+			}()
+			spv3 := r.Cfg.SP()
+			if r.SPObj != nil {
+				spv3 = r.SPObj
+			}
+			if r.Entry == 0 {
+				o3 = observe(spv3.ParseXMLResponse(append([]byte{}, b...), idsArg(), cur))
+			} else {
+				o3 = observe(spv3.ParseXMLArtifactResponse(append([]byte{}, b...), idsArg(), r.Rid, cur))
 			}
 		}()
 		if r.Entry == 0 {
@@ -486,7 +520,7 @@ func (r *Run) Exec() (o Obs, formAgrees bool) {
 				if r.SPObj != nil {
 					spv2 = r.SPObj
 				}
-				o2 = observe(spv2.ParseResponse(req, r.IDs))
+				o2 = observe(spv2.ParseResponse(req, idsArg()))
 			}()
 		}
 	})
@@ -524,6 +558,10 @@ func addRun(c *Ctx, g *Group, r *Run, key map[string]string, panicIsFailure bool
 	if o.Kind == "panic" && panicIsFailure {
 		cs.ImplSpecOK = Bptr(false)
 		cs.Note = "panic: " + o.Err
+	}
+	if r.again != "" {
+		cs.ImplSpecOK = Bptr(false)
+		cs.Note = "the same bytes presented a second time were decided differently: " + r.again
 	}
 	if o.Kind != "panic" && !o.ShapeOK {
 		cs.ImplSpecOK = Bptr(false)
